@@ -26,6 +26,7 @@ TL = 'concepts/tools.py'
 _BSP = 'ABS:/venv/lib/python3.12/site-packages/bitsets/'
 BI, BB, BM, BS, BC = _BSP + 'integers.py', _BSP + 'bases.py', _BSP + 'meta.py', _BSP + 'series.py', _BSP + 'combos.py'
 DF = 'concepts/definitions.py'
+FCX, FTB, FWK = 'concepts/formats/cxt.py', 'concepts/formats/table.py', 'concepts/formats/wiki_table.py'
 
 MUTANTS = [
     # (file, old, new, units, 'breaks'|'equivalent')
@@ -310,7 +311,58 @@ MUTANTS = [
     (TL, "                       if item not in seen and not add(item)]", "                       if not add(item)]", ['tools.Unique.__init__'], 'breaks'),
     (TL, "        return all(map(self._seen.__contains__, items))", "        return any(map(self._seen.__contains__, items))", ['tools.Unique.issuperset'], 'breaks'),
     (DF, "        return [tuple((o, p) in pairs for p in prop) for o in self._objects]", "        return [tuple((p, o) in pairs for p in prop) for o in self._objects]", ['definitions.bools'], 'breaks'),
+    # line / structure level of the text formats (contracts/formats_lines.py)
+    (FCX, "    yield from objects\n    yield from properties", "    yield from properties\n    yield from objects", ['formats.cxt.iter_cxt_lines'], 'breaks'),
+    (FCX, "    yield f'{len(objects):d}'\n    yield f'{len(properties):d}'", "    yield f'{len(properties):d}'\n    yield f'{len(objects):d}'", ['formats.cxt.iter_cxt_lines'], 'breaks'),
+    (FCX, "        yield ''.join(symbols[value] for value in row)", "        yield ''.join(symbols[not value] for value in row)", ['formats.cxt.iter_cxt_lines'], 'breaks'),
+    (FCX, "        yield ''.join(symbols[value] for value in row)", "        yield ' '.join(symbols[value] for value in row)", ['formats.cxt.iter_cxt_lines'], 'breaks'),
+    (FCX, "    yield 'B'\n    yield ''\n", "    yield 'B'\n", ['formats.cxt.iter_cxt_lines'], 'breaks'),
+    (FCX, "    for row in bools:\n        yield", "    for row in bools[1:]:\n        yield", ['formats.cxt.iter_cxt_lines'], 'breaks'),
+    (FCX, "    assert len(objects) == len(bools)", "    assert len(objects) == len(properties)", ['formats.cxt.iter_cxt_lines'], 'breaks'),
+    (FCX, "        yield ''.join(symbols[value] for value in row)", "        yield ''.join([symbols[value] for value in row])", ['formats.cxt.iter_cxt_lines'], 'equivalent'),
+    (FCX, "    yield f'{len(objects):d}'", "    yield f'{len(bools):d}'", ['formats.cxt.iter_cxt_lines'], 'equivalent'),
+    (FCX, "        for line in iter_cxt_lines(objects, properties, bools,", "        for line in iter_cxt_lines(properties, objects, bools,", ['formats.cxt.Cxt.dumpf'], 'breaks'),
+    (FCX, "        write = functools.partial(print, file=file)\n        for line in iter_cxt_lines", "        write = functools.partial(print)\n        for line in iter_cxt_lines", ['formats.cxt.Cxt.dumpf'], 'breaks'),
+    (FCX, "            write(line)", "            write(line)\n            write(line)", ['formats.cxt.Cxt.dumpf'], 'breaks'),
+    (FCX, "                                   symbols=cls.symbols):", "                                   ):", ['formats.cxt.Cxt.dumpf'], 'breaks'),
+    (FCX, "            write(line)", "            print(line, file=file)", ['formats.cxt.Cxt.dumpf'], 'equivalent'),
+    (FCX, "        properties = lines[y:y + x]", "        properties = lines[y:x]", ['formats.cxt.Cxt.loadf'], 'breaks'),
+    (FCX, "        objects = lines[:y]", "        objects = lines[:x]", ['formats.cxt.Cxt.loadf'], 'breaks'),
+    (FCX, "        return ContextArgs(objects, properties, bools)", "        return ContextArgs(properties, objects, bools)", ['formats.cxt.Cxt.loadf'], 'breaks'),
+    (FCX, "        y, x = map(int, yx.split())", "        x, y = map(int, yx.split())", ['formats.cxt.Cxt.loadf'], 'breaks'),
+    (FCX, "        lines = [l.strip() for l in table.strip().split('\\n')]", "        lines = [l for l in table.strip().split('\\n')]", ['formats.cxt.Cxt.loadf'], 'breaks'),
+    (FCX, "                 for l in lines[y + x:]]", "                 for l in lines[y:]]", ['formats.cxt.Cxt.loadf'], 'breaks'),
+    (FCX, "        b, yx, table = source.split('\\n\\n')", "        b, yx, table = source.split('\\n')", ['formats.cxt.Cxt.loadf'], 'breaks'),
+    (FCX, "                 for l in lines[y + x:]]", "                 for l in lines[x + y:]]", ['formats.cxt.Cxt.loadf'], 'equivalent'),
+    (FTB, "    wd = [tools.max_len(objects)]", "    wd = [tools.max_len(properties)]", ['formats.table.dump_file'], 'breaks'),
+    (FTB, "    write(tmpl % (('',) + tuple(properties)))", "    write(tmpl % (tuple(properties) + ('',)))", ['formats.table.dump_file'], 'breaks'),
+    (FTB, "tuple('X' if b else '' for b in intent)", "tuple('' if b else 'X' for b in intent)", ['formats.table.dump_file'], 'breaks'),
+    (FTB, "    for o, intent in zip(objects, bools):\n        write(tmpl % ((o,)", "    for intent, o in zip(objects, bools):\n        write(tmpl % ((o,)", ['formats.table.dump_file'], 'breaks'),
+    (FTB, "    wd.extend(map(len, properties))", "    wd.extend(map(len, objects))", ['formats.table.dump_file'], 'breaks'),
+    (FTB, "'|'.join(f'%-{w:d}s' for w in wd) + '|'", "'|'.join(f'%{w:d}s' for w in wd) + '|'", ['formats.table.dump_file'], 'breaks'),
+    (FTB, "    write(tmpl % (('',) + tuple(properties)))\n", "", ['formats.table.dump_file'], 'breaks'),
+    (FTB, "        write(tmpl % ((o,) + tuple('X' if b else '' for b in intent)))", "        write(tmpl % ((o,) + tuple('X' if b else '' for b in intent)), end='')", ['formats.table.dump_file'], 'breaks'),
+    (FTB, "tuple('X' if b else '' for b in intent)", "tuple('' if not b else 'X' for b in intent)", ['formats.table.dump_file'], 'equivalent'),
+    (FTB, "    tmpl = ' ' * indent + '|'.join(f'%-{w:d}s' for w in wd) + '|'", "    tmpl = ' ' * indent + ('|'.join(f'%-{w:d}s' for w in wd) + '|')", ['formats.table.dump_file'], 'equivalent'),
+    (FTB, "    properties = [p.strip() for p in lines[0].strip('|').split('|')]", "    properties = [p.strip() for p in lines[1].strip('|').split('|')]", ['formats.table.load_file'], 'breaks'),
+    (FTB, "(objflags.partition('|')[::2] for objflags in lines[1:])", "(objflags.partition('|')[::2] for objflags in lines[2:])", ['formats.table.load_file'], 'breaks'),
+    (FTB, "(objflags.partition('|')[::2] for objflags in lines[1:])", "(objflags.partition('|')[1:] for objflags in lines[1:])", ['formats.table.load_file'], 'breaks'),
+    (FTB, "    objects, bools = zip(*table)\n    return ContextArgs(objects, properties, bools)", "    bools, objects = zip(*table)\n    return ContextArgs(objects, properties, bools)", ['formats.table.load_file'], 'breaks'),
+    (FTB, "    lines = list(filter(None, lines))", "    lines = list(lines)", ['formats.table.load_file'], 'breaks'),
+    (FTB, "    lines = (line.partition('#')[0].strip() for line in file)", "    lines = (line.partition('#')[2].strip() for line in file)", ['formats.table.load_file'], 'breaks'),
+    (FTB, "tuple(bool(f.strip()) for f in flags.strip('|').split('|'))", "tuple(bool(f) for f in flags.strip('|').split('|'))", ['formats.table.load_file'], 'breaks'),
+    (FTB, "tuple(bool(f.strip()) for f in flags.strip('|').split('|'))", "tuple(not not f.strip() for f in flags.strip('|').split('|'))", ['formats.table.load_file'], 'equivalent'),
+    (FWK, "        write('|-')\n        write(f'!{o}')", "        write(f'!{o}')\n        write('|-')", ['formats.wiki_table.dump_file'], 'breaks'),
+    (FWK, "        write('|{}'.format('||'.join(bcells)))\n    write('|}')", "        write('|{}'.format('||'.join(bcells)))", ['formats.wiki_table.dump_file'], 'breaks'),
+    (FWK, "'||'.join(bcells)", "'|'.join(bcells)", ['formats.wiki_table.dump_file'], 'breaks'),
+    (FWK, "for w, b in zip(wp, intent))", "for b, w in zip(wp, intent))", ['formats.wiki_table.dump_file'], 'breaks'),
+    (FWK, "    write('!{}'.format('!!'.join(properties)))", "    write('!{}'.format('!!'.join(objects)))", ['formats.wiki_table.dump_file'], 'breaks'),
+    (FWK, "    wp = list(map(len, properties))", "    wp = list(map(len, objects))", ['formats.wiki_table.dump_file'], 'breaks'),
+    (FWK, "    write('!')\n", "", ['formats.wiki_table.dump_file'], 'breaks'),
+    (FWK, "    wp = list(map(len, properties))", "    wp = [len(p) for p in properties]", ['formats.wiki_table.dump_file'], 'equivalent'),
+    (FWK, "(('X' if b else '').ljust(w) for w, b in zip(wp, intent))", "[('X' if b else '').ljust(w) for w, b in zip(wp, intent)]", ['formats.wiki_table.dump_file'], 'equivalent'),
 ]
+
 
 
 def _one(job):
